@@ -28,12 +28,19 @@ type pathState struct {
 	// Over replaces a boolean comparison that is returned as a value by the constant it has on this path (see
 	// EnumLits: `return a < b` is enumerated as `if a < b { return true }; return false`).
 	Over map[ssa.Value]ssa.Value
+	// BindFV: free variables of a function literal that an inlined helper calls through one of its parameters
+	// (`db.withSchema(table, func(s *Schema) error {…})`) → the cell of the enclosing function they capture.
+	BindFV map[*ssa.FreeVar]ssa.Value
+	// Loaded: what a load of a stored-to cell observed when it was executed on this path (a later store into the
+	// cell must not change what an earlier load saw: `cols = append(cols, c)` on a captured variable).
+	Loaded map[*ssa.UnOp]ssa.Value
 }
 
 type inlFrame struct {
 	call  *ssa.Call
 	block *ssa.BasicBlock
 	idx   int
+	fn    *ssa.Function
 }
 
 func (ps *pathState) clone() *pathState {
@@ -68,6 +75,18 @@ func (ps *pathState) clone() *pathState {
 		n.Ret = make(map[*ssa.Call][]ssa.Value, len(ps.Ret))
 		for k, v := range ps.Ret {
 			n.Ret[k] = v
+		}
+	}
+	if len(ps.Loaded) > 0 {
+		n.Loaded = make(map[*ssa.UnOp]ssa.Value, len(ps.Loaded))
+		for k, v := range ps.Loaded {
+			n.Loaded[k] = v
+		}
+	}
+	if len(ps.BindFV) > 0 {
+		n.BindFV = make(map[*ssa.FreeVar]ssa.Value, len(ps.BindFV))
+		for k, v := range ps.BindFV {
+			n.BindFV[k] = v
 		}
 	}
 	if len(ps.Over) > 0 {
@@ -135,7 +154,19 @@ func (ps *pathState) Resolve(v ssa.Value) ssa.Value {
 			if x.Op.String() != "*" {
 				return v
 			}
+			if seen, ok := ps.Loaded[x]; ok {
+				v = seen
+				continue
+			}
 			a, ok := x.X.(*ssa.Alloc)
+			if !ok {
+				// a captured variable of an inlined function literal is the enclosing function's cell
+				if fv, isFV := x.X.(*ssa.FreeVar); isFV {
+					if b, bound := ps.BindFV[fv]; bound {
+						a, ok = b.(*ssa.Alloc)
+					}
+				}
+			}
 			if !ok {
 				return v
 			}
